@@ -372,7 +372,7 @@ def u9(rep):
     for u in sorted(dig):
         base = u.split("/")[-1]
         for name, line, kind in dig[u]:
-            n += 1
+            n += kind != "zero"
             key = "stamped-with-the-current-step:%s:%s" % (base, name)
             if kind in ("current", "zero"):
                 rep.ok("U9", key + "@%d" % line, nontrivial=(kind == "current"))
@@ -382,7 +382,52 @@ def u9(rep):
                               "rejected step (`stamp == intStepNo - 1`) does not recognise it, so what the rejected form left in "
                               "it stays -- an identifier first used in a rejected form can never be defined in that session"
                               % kind[6:])
-    rep.floor("step stamps written by the binder, the symbol table and the constructors", n, 6)
+    rep.floor("step stamps written by the binder, the symbol table and the constructors", n, 4)
+
+
+def u11(rep):
+    """The type-form constructors stamp what they make with the step being read, and the roll-back of a rejected step frees
+    every type form carrying that stamp.  A type form read from a library is not the step's to free: the library caches it and
+    hands it out again.  tformFrBuffer therefore clears the stamp of every form it makes (`tf->intStepNo = 0`).  Without that, a
+    domain whose types are first loaded during a rejected form (`l: List SingleInteger := [x, "oops"]`) has them freed by the
+    roll-back, and the next form that mentions the domain faults.  In sefo.c's tformFrBuffer every result of a `tfNew*`
+    constructor has its stamp set to 0 in the same block, before the block ends."""
+    f = common.extract("sefo.c", all_trees=True)
+    fn = f.funcs.get("tformFrBuffer")
+    if fn is None or "body" not in fn:
+        raise AnalysisBroken("sefo.c: tformFrBuffer not found")
+    n = 0
+    for blk in walk(fn["body"]):
+        if blk["k"] != "CompoundStmt":
+            continue
+        sts = [x for x in blk["c"] if x is not None]
+        for i, st in enumerate(sts):
+            a = strip(st)
+            if a is None or a["k"] != "BinaryOperator" or a["op"] != "=":
+                continue
+            l, r = strip(a["c"][0]), strip(a["c"][1])
+            if l is None or l["k"] != "DeclRefExpr" or r is None or r["k"] != "CallExpr" \
+                    or not (r.get("callee") or "").startswith("tfNew"):
+                continue
+            n += 1
+            key = "library-type-form-unstamped:%s" % r["callee"]
+            cleared = False
+            for later in sts[i + 1:]:
+                for y in walk(later):
+                    if y["k"] == "BinaryOperator" and y["op"] == "=":
+                        ll = strip(y["c"][0])
+                        if ll is not None and ll["k"] == "MemberExpr" and ll["n"] == "intStepNo" \
+                                and common.render(strip(ll["c"][0])) == l["n"] and const_value(y["c"][1]) == 0:
+                            cleared = True
+            if cleared:
+                rep.ok("U11", key + "@%d" % st["l"])
+            else:
+                rep.violation("U11", key, "sefo.c:%d (tformFrBuffer)" % st["l"],
+                              "the type form made by %s while reading a library keeps the stamp of the step being read (no "
+                              "`%s->intStepNo = 0` follows in the block): if that step is rejected the roll-back frees the form, "
+                              "which the library still caches -- the next form that uses the domain faults (first load of "
+                              "`List SingleInteger` inside an ill-typed form, then any use of it)" % (r["callee"], l["n"]))
+    rep.floor("type forms constructed while reading a library", n, 2)
 
 
 def u10(rep):
@@ -720,6 +765,7 @@ def run(tier, only=None):
     u8(rep)
     u9(rep)
     u10(rep)
+    u11(rep)
     rep.analysed_count("functions", 3)
     rep.assumptions.append("the CFG search is path-insensitive except for the fintMode == FINT_LOOP assumption in U1")
     return rep
